@@ -288,6 +288,10 @@ template <typename PSET>
 void
 Pointset_Powerset<PSET>::remove_space_dimensions(const Variables_Set& vars) {
   Pointset_Powerset& x = *this;
+  if (x.sequence.empty()) {
+    // Let the disjunct domain validate the arguments.
+    PSET(x.space_dim, EMPTY).remove_space_dimensions(vars);
+  }
   Variables_Set::size_type num_removed = vars.size();
   if (num_removed > 0) {
     for (Sequence_iterator si = x.sequence.begin(),
@@ -305,6 +309,10 @@ void
 Pointset_Powerset<PSET>
 ::remove_higher_space_dimensions(dimension_type new_dimension) {
   Pointset_Powerset& x = *this;
+  if (x.sequence.empty()) {
+    // Let the disjunct domain validate the arguments.
+    PSET(x.space_dim, EMPTY).remove_higher_space_dimensions(new_dimension);
+  }
   if (new_dimension < x.space_dim) {
     for (Sequence_iterator si = x.sequence.begin(),
            s_end = x.sequence.end(); si != s_end; ++si) {
@@ -348,6 +356,10 @@ void
 Pointset_Powerset<PSET>::expand_space_dimension(Variable var,
                                                 dimension_type m) {
   Pointset_Powerset& x = *this;
+  if (x.sequence.empty()) {
+    // Let the disjunct domain validate the arguments.
+    PSET(x.space_dim, EMPTY).expand_space_dimension(var, m);
+  }
   for (Sequence_iterator si = x.sequence.begin(),
          s_end = x.sequence.end(); si != s_end; ++si) {
     si->pointset().expand_space_dimension(var, m);
@@ -361,6 +373,10 @@ void
 Pointset_Powerset<PSET>::fold_space_dimensions(const Variables_Set& vars,
                                                Variable dest) {
   Pointset_Powerset& x = *this;
+  if (x.sequence.empty()) {
+    // Let the disjunct domain validate the arguments.
+    PSET(x.space_dim, EMPTY).fold_space_dimensions(vars, dest);
+  }
   Variables_Set::size_type num_folded = vars.size();
   if (num_folded > 0) {
     for (Sequence_iterator si = x.sequence.begin(),
